@@ -22,13 +22,13 @@
    w_fits s w          : bool                   Worker.can_accomodate_strategy
    w_placed_tasks w    : list Z                 get_placed_tasks
    w_get_allocated_resources t w, w_is_available p w, w_is_full w, w_compatible strats w
-   w_copy w : result worker (copy re-applies the ledger; can raise), w_deepcopy w : worker
+   w_copy w : result worker (always Ok since /repo cd7cd87; batches and pending strategies are copied), w_deepcopy w : worker
    pool := {p_id; p_workers : list worker (dict worker-id -> Worker, insertion order); p_placed : list (task * worker id)}
    p_place t strats es wid P : pool * result bool   WorkerPool.place_task, every branch except the
                                                 second-level scheduler (`_scheduler is None`):
                                                 strats = task.available_execution_strategies,
                                                 es = execution_strategy, wid = worker_id; Ok false = "return False"
-   p_remove t P, p_load p s wid P, p_evict p wid P : pool * result unit ; p_step dt P : pool
+   p_remove t P, p_load p s wid P (with the pre-check of /repo 0f42ab1), p_evict p wid P : pool * result unit ; p_step dt P : pool
    p_fits s P, p_placed_tasks P, p_is_full P, p_resources P, p_utilization P
    p_copy P : result pool, p_deepcopy P : pool
    pools := list pool; pools_placed_tasks, pools_get, pools_copy, pools_deepcopy, pools_is_full
@@ -88,7 +88,8 @@ Definition w_rebase (n : Z) (w : worker) : worker :=
 
 (* Worker.place_task *)
 Definition w_place (t : Z) (s : strategy) (w : worker) : worker * result unit :=
-  if s_is_batch s then
+  if zmem t (w_placed w) then (w, Err E_VALUE)      (* already placed (/repo 17757a8) *)
+  else if s_is_batch s then
     match zfind (s_id s) (w_batches w) with
     | None =>
         if s_bsize s <? 1 then (w, Err E_VALUE)
@@ -221,10 +222,18 @@ Definition w_get_allocated_resources (t : Z) (w : worker) : worker * result (lis
       else let '(R, l) := r_get_allocated_resources (w_res w) (CTask t) in (w_set_res w R, Ok l)
   end.
 
-(* Worker.__copy__ (the batch bookkeeping is NOT copied) and __deepcopy__ *)
+(* Worker.__copy__ (as of /repo b0287db: the batch bookkeeping is copied, every pending profile gets
+   its own copy of the loading strategy, i.e. a fresh object) and __deepcopy__ *)
+Fixpoint renumber_pend (n : Z) (pend : list (Z * strategy)) : list (Z * strategy) :=
+  match pend with
+  | [] => []
+  | (p, s) :: pend' => (p, mkStrat n false (s_req s) (s_bsize s) (s_runtime s)) :: renumber_pend (n + 1) pend'
+  end.
 Definition w_copy (w : worker) : result worker :=
   match r_copy (w_res w) with
-  | Ok R => Ok (mkWorker (w_id w) R (w_placed w) [] [] (w_avail_prof w) (w_pend_prof w) (w_fresh w))
+  | Ok R => Ok (mkWorker (w_id w) R (w_placed w) (w_batches w) (w_btask w) (w_avail_prof w)
+                         (renumber_pend (w_fresh w) (w_pend_prof w))
+                         (w_fresh w + Z.of_nat (length (w_pend_prof w))))
   | Err e => Err e
   end.
 Definition w_deepcopy (w : worker) : worker :=
@@ -285,6 +294,7 @@ Definition p_choose (strats : list strategy) (es : option strategy) (wid : optio
 
 Definition p_place (t : Z) (strats : list strategy) (es : option strategy) (wid : option Z) (P : pool)
   : pool * result bool :=
+  if zmem t (p_placed P) then (P, Err E_VALUE) else      (* already placed (/repo 17757a8) *)
   match p_choose strats es wid P with
   | Err e => (P, Err e)
   | Ok None => (P, Ok false)
@@ -332,8 +342,22 @@ Fixpoint p_each (f : worker -> worker * result unit) (ids : list Z) (ws : list w
   end.
 Definition p_ids (wid : option Z) (P : pool) : list Z :=
   match wid with Some w => [w] | None => map w_id (p_workers P) end.
+(* the pre-check of load_profile (/repo 0f42ab1): every targeted worker must accomodate the strategy *)
+Fixpoint p_precheck (s : strategy) (ids : list Z) (ws : list worker) : result unit :=
+  match ids with
+  | [] => Ok tt
+  | i :: ids' =>
+      match pw_find i ws with
+      | None => Err E_KEY
+      | Some W => if w_fits s W then p_precheck s ids' ws else Err E_VALUE
+      end
+  end.
 Definition p_load (p : Z) (s : strategy) (wid : option Z) (P : pool) : pool * result unit :=
-  let '(ws, r) := p_each (w_load p s) (p_ids wid P) (p_workers P) in (mkPool (p_id P) ws (p_placed P), r).
+  match p_precheck s (p_ids wid P) (p_workers P) with
+  | Err e => (P, Err e)
+  | Ok _ =>
+      let '(ws, r) := p_each (w_load p s) (p_ids wid P) (p_workers P) in (mkPool (p_id P) ws (p_placed P), r)
+  end.
 Definition p_evict (p : Z) (wid : option Z) (P : pool) : pool * result unit :=
   let '(ws, r) := p_each (w_evict p) (p_ids wid P) (p_workers P) in (mkPool (p_id P) ws (p_placed P), r).
 
@@ -441,11 +465,10 @@ Definition cap_name (w : worker) (n : Z) : Z := sumP (fun k => fst k =? n) (r_to
 (* ---------------------------------------------------------------------------------------------- *)
 (* A world of several objects (Resources / Worker / WorkerPool and their copies), for the
    correspondence stream S-ledger and for the statements about copies.  A copy shares with its
-   original the task, strategy and profile objects; the only shared MUTABLE object is the copied
-   loading strategy of a pending profile (Worker.step decrements its `_runtime` in place), which
-   the world makes explicit: pending entries carry the identity (s_id) of that object and a step of
-   one object is propagated to the entries of the other objects holding the same identity.  To keep
-   identities globally unique every copied worker continues numbering from a fresh base. *)
+   original the task, strategy and profile objects, none of which is mutated by these classes: since
+   /repo b0287db the copied loading strategy of a pending profile (the one object Worker.step mutates)
+   is copied again by Worker.__copy__, so an operation on one object touches no other object.
+   (obj_sync below is what the world needed before that repair; it is no longer used by world_step.) *)
 Inductive obj := ORes (R : res) | OWorker (w : worker) | OPool (P : pool) | ODead (e : Z).
 Inductive wcmd :=
 | CRes (i : nat) (o : rop) | CWorker (i : nat) (o : wop) | CPool (i : nat) (o : pop)
@@ -505,16 +528,14 @@ Definition world_step (W : world) (c : wcmd) : world * Z :=
       match nth_error objs i with
       | Some (OWorker w) =>
           let '(w', r) := w_opstep w o in
-          let objs' := if is_step_w o then map (obj_sync (w_pend_prof w')) objs else objs in
-          (mkWorld (set_nth i (OWorker w') objs') (wo_base W), code_unit r)
+          (mkWorld (set_nth i (OWorker w') objs) (wo_base W), code_unit r)
       | _ => (W, -2)
       end
   | CPool i o =>
       match nth_error objs i with
       | Some (OPool P) =>
           let '(P', r) := p_opstep P o in
-          let objs' := if is_step_p o then map (obj_sync (obj_pending (OPool P'))) objs else objs in
-          (mkWorld (set_nth i (OPool P') objs') (wo_base W), code_bool r)
+          (mkWorld (set_nth i (OPool P') objs) (wo_base W), code_bool r)
       | _ => (W, -2)
       end
   | CCopy i =>
